@@ -1477,14 +1477,21 @@ func gateCorpus(side string) []gateCase {
 // gateExhaustive enumerates every history of length <= depth over an alphabet of canonical envelopes:
 // each server method once as a well-formed legacy envelope and once carrying complete 2026-07-28 metadata.
 // The histories are run on the given server transport (prefix distinguishes the case ids).
-func gateExhaustive(depth int, tr, prefix string) []gateCase {
+// core: only the letters the lifecycle depends on (both flavours of initialize, initialized, ping, discover,
+// a listing, a call, a state-changing feature method, an unknown method).
+func gateExhaustive(depth int, tr, prefix string, core bool) []gateCase {
 	methods := append(append([]string{}, gateServerMethods...), "foo/bar")
+	newMethods := []string{"tools/list", "tools/call", "server/discover", "ping", "initialize", "logging/setLevel", "resources/subscribe"}
+	if core {
+		methods = []string{"initialize", "notifications/initialized", "ping", "tools/list", "tools/call", "logging/setLevel", "server/discover", "foo/bar"}
+		newMethods = []string{"tools/list", "server/discover", "initialize"}
+	}
 	type letter struct{ method, force string }
 	var alpha []letter
 	for _, m := range methods {
 		alpha = append(alpha, letter{m, "legacy"})
 	}
-	for _, m := range []string{"tools/list", "tools/call", "server/discover", "ping", "initialize", "logging/setLevel", "resources/subscribe"} {
+	for _, m := range newMethods {
 		alpha = append(alpha, letter{m, "new"})
 	}
 	var out []gateCase
@@ -1601,11 +1608,15 @@ func gateCases(side string) []gateCase {
 		if verifThorough() {
 			deep = 3
 		}
-		cases = append(cases, gateExhaustive(deep, "plain", "x")...)
-		cases = append(cases, gateExhaustive(deep, "ge:"+hxs("2026-07-28"), "xn")...)
-		cases = append(cases, gateExhaustive(2, "set:-", "xe")...)
-		cases = append(cases, gateExhaustive(2, gateTrSet("2025-03-26"), "xo")...)
-		cases = append(cases, gateExhaustive(2, "lt:"+hxs("2026-07-28"), "xl")...)
+		cases = append(cases, gateExhaustive(deep, "plain", "x", false)...)
+		for _, tr := range [][2]string{{"ge:" + hxs("2026-07-28"), "xn"}, {"set:-", "xe"}, {gateTrSet("2025-03-26"), "xo"}, {"lt:" + hxs("2026-07-28"), "xl"}} {
+			cases = append(cases, gateExhaustive(2, tr[0], tr[1], false)...)
+			if verifThorough() {
+				// <= 3 envelopes over the 11 lifecycle letters: initialize -> failed initialize -> list, discover
+				// followed by legacy traffic, ... on every kind of transport
+				cases = append(cases, gateExhaustive(3, tr[0], tr[1]+"c", true)...)
+			}
+		}
 	}
 	return cases
 }
